@@ -150,6 +150,7 @@ class State:
         self.rows = {}
         self.ineq = []
         self.bottom = False
+        self.neq = []          # list of Lin (!= 0), reduced by the rows
         # sym -> ("in"|"notin", frozenset(tokens)); absent = top
         self.enums = {}
         # name -> frozenset: may-sets (join = union)
@@ -160,6 +161,7 @@ class State:
         s.rows = dict(self.rows)
         s.ineq = list(self.ineq)
         s.bottom = self.bottom
+        s.neq = list(self.neq)
         s.enums = dict(self.enums)
         s.may = dict(self.may)
         return s
@@ -240,6 +242,38 @@ class State:
         self.rows[p] = e
         if self.ineq:
             self._renorm_ineq(p)
+        if self.neq:
+            self._renorm_neq()
+
+    # ------------------------------------------------------------ disequalities
+    def _renorm_neq(self):
+        old, self.neq = self.neq, []
+        for d in old:
+            self.add_neq(d)
+
+    def add_neq(self, e):
+        r = self.reduce(e)
+        if not r.t:
+            if r.c == 0:
+                self.bottom = True
+            return
+        k = r.key()
+        nk = (-r).key()
+        for d in self.neq:
+            if d.key() in (k, nk):
+                return
+        if len(self.neq) < 12:
+            self.neq.append(r)
+
+    def entails_neq(self, e):
+        r = self.reduce(e)
+        if not r.t:
+            return r.c != 0
+        k, nk = r.key(), (-r).key()
+        for d in self.neq:
+            if d.key() in (k, nk):
+                return True
+        return self.entails_ineq(r - Lin.const(1)) or self.entails_ineq(-r - Lin.const(1))
 
     def _renorm_ineq(self, only=None):
         keep, redo = [], []
@@ -345,6 +379,8 @@ class State:
                 self.ineq = [i.subst(s, expr) for i in self.ineq]
                 self._renorm_ineq()
             return
+        if self.neq:
+            self._forget_neq(s)
         holder = None
         for p, r in rows.items():
             if s in r.t:
@@ -367,6 +403,24 @@ class State:
             self.ineq = [i.subst(s, expr) for i in self.ineq]
             self._renorm_ineq()
 
+    def _forget_neq(self, s):
+        """called before s is eliminated: rewrite disequalities through a row
+        that defines s, otherwise drop those mentioning s"""
+        holder = None
+        for p, r in self.rows.items():
+            if s in r.t:
+                holder = r
+                break
+        out = []
+        for d in self.neq:
+            if s not in d.t:
+                out.append(d)
+            elif holder is not None:
+                a = holder.t[s]
+                expr = (holder - Lin._mk({s: a}, 0)).scale(_div(-1, a))
+                out.append(d.subst(s, expr))
+        self.neq = out
+
     def forget_all(self, s):
         self.forget(s)
         self.enums.pop(s, None)
@@ -383,12 +437,16 @@ class State:
         inv = (Lin.sym(x) - rest).scale(_div(1, f))
         old_rows = list(self.rows.values())
         old_ineq = self.ineq
+        old_neq = self.neq
         self.rows = {}
         self.ineq = []
+        self.neq = []
         for r in old_rows:
             self.add_eq(r.subst(x, inv))
         for i in old_ineq:
             self.add_ineq(i.subst(x, inv))
+        for d in old_neq:
+            self.add_neq(d.subst(x, inv))
 
     def eqs(self):
         return list(self.rows.values())
@@ -399,6 +457,8 @@ class State:
             s |= r.syms()
         for i in self.ineq:
             s |= i.syms()
+        for d in self.neq:
+            s |= d.syms()
         return s
 
 
@@ -487,6 +547,11 @@ def join(a, b):
                     c = y.lower_bound(e)
                     if c is not None and c >= 0:
                         out.add_ineq(e)
+    # ---- disequalities
+    for x, y in ((a, b), (b, a)):
+        for d in x.neq:
+            if y.entails_neq(d):
+                out.add_neq(d)
     # ---- enums
     for s in set(a.enums) & set(b.enums):
         (ka, sa), (kb, sb) = a.enums[s], b.enums[s]
@@ -514,6 +579,12 @@ def same(a, b):
             return False
     if a.enums != b.enums or a.may != b.may:
         return False
+    if sorted(d.key() for d in a.neq) != sorted(d.key() for d in b.neq):
+        # the same disequality may be stored with either sign
+        ka = {min(d.key(), (-d).key()) for d in a.neq}
+        kb = {min(d.key(), (-d).key()) for d in b.neq}
+        if ka != kb:
+            return False
     return sorted(i.key() for i in a.ineq) == sorted(i.key() for i in b.ineq)
 
 
